@@ -31,6 +31,7 @@ def markersOK : (Topic → Bool) → List (Op × Out) → Prop
   | e, (op, out) :: rest =>
     match op, out with
     | .kill, _ => True
+    | .crashAt _ _ _ _, _ => True
     | .isClean _, .err .closed => markersOK e rest
     | .isClean t, o => o = .flag (e t) ∧ markersOK e rest
     | .append _ _, .err .closed => markersOK e rest
@@ -93,6 +94,7 @@ theorem runFrom_markersOK (c : Cfg) (ops : List Op) (p : Proc) (e : Topic → Bo
     simp only [runFrom, List.zip_cons_cons]
     cases op with
     | kill => simp [markersOK]
+    | crashAt k n fd o => simp [markersOK]
     | clock ms => simp only [markersOK, step]; exact ih _ _ h
     | open_ mode =>
       simp only [markersOK, step]
